@@ -74,6 +74,8 @@ let rec ser (b : Buffer.t) (o : obj) : unit =
     Buffer.add_string b " ]"
   | ODict d -> ser_dict b d
   | OStream (d, data) ->
+    (* /Length is left out, as in the harness *)
+    let d = List.filter (fun (k, _) -> hex_of_bytes k <> "4c656e677468") d in
     Buffer.add_string b "S "; ser_dict b d; Buffer.add_string b (" =" ^ hex_of_bytes data)
 and ser_dict b d =
   (* keys sorted bytewise, as the harness does *)
